@@ -49,7 +49,7 @@ func cmdC04(seed uint64, tier, outdir string) {
 	all := embeddedDocs()
 	n := 20
 	if tier == "thorough" {
-		n = 500
+		n = 160
 	}
 	matchFamily = "determinism"
 	// include the documents whose names scoreDiffs treats specially (inducedPhrases keys)
